@@ -248,22 +248,26 @@ Theorem revolut2_faithful acct feeacct rows :
     (forall d c v, In (mkBalFact d c v) bals <-> r2_closing (d, c) rows = Some v).
 Proof.
   intros H1 H2 Hwf.
-  exists (map (r2_txn acct feeacct) (filter r2_is_booking rows)), (map r2_bal_fact (r2_puts [] rows)).
+  exists (map (r2_txn acct feeacct) (filter r2_is_booking rows)), (map r2_bal_fact (sort_by r2_kv_ltb (r2_puts [] rows))).
+  pose proof (sort_by_perm r2_kv_ltb (r2_puts [] rows)) as Hperm.
   split; [|split; [|split; [|split]]].
   - cbn [import_revolut2]. rewrite r2_header_self. cbn [mbind]. rewrite (r2_rows_ok acct feeacct rows [] Hwf). cbn [mbind fst snd].
-    f_equal. f_equal. unfold r2_assertions. rewrite map_map. apply map_ext. intros [[d c] v]. reflexivity.
+    f_equal. f_equal. unfold r2_assertions, r2_assertions_pinned. rewrite map_map. apply map_ext. intros [[d c] v]. reflexivity.
   - induction (filter r2_is_booking rows) as [|r l IH]; cbn [map]; constructor; [|exact IH].
     apply books_b_intro; [reflexivity|]. intros c. apply r2_legs_effect; assumption.
   - rewrite !map_map. apply map_ext. reflexivity.
-  - rewrite map_map. replace (map (fun x => (bf_date (r2_bal_fact x), bf_com (r2_bal_fact x))) (r2_puts [] rows))
-      with (map fst (r2_puts [] rows)).
-    + apply r2_puts_nodup. constructor.
+  - rewrite map_map. replace (map (fun x => (bf_date (r2_bal_fact x), bf_com (r2_bal_fact x))) (sort_by r2_kv_ltb (r2_puts [] rows)))
+      with (map fst (sort_by r2_kv_ltb (r2_puts [] rows))).
+    + eapply Permutation.Permutation_NoDup; [apply Permutation.Permutation_map; apply Permutation.Permutation_sym; exact Hperm|].
+      apply r2_puts_nodup. constructor.
     + apply map_ext. intros [[d c] v]. reflexivity.
   - intros d c v. pose proof (r2_puts_closing rows [] (d, c) v (NoDup_nil _)) as H.
-    assert (Hin : In (mkBalFact d c v) (map r2_bal_fact (r2_puts [] rows)) <-> In ((d, c), v) (r2_puts [] rows)).
+    assert (Hin : In (mkBalFact d c v) (map r2_bal_fact (sort_by r2_kv_ltb (r2_puts [] rows))) <-> In ((d, c), v) (r2_puts [] rows)).
     { rewrite in_map_iff. split.
-      - intros ([[d' c'] v'] & He & Hi). unfold r2_bal_fact in He. cbn [fst snd] in He. injection He. intros; subst. exact Hi.
-      - intros Hi. exists ((d, c), v). split; [reflexivity|exact Hi]. }
+      - intros ([[d' c'] v'] & He & Hi). unfold r2_bal_fact in He. cbn [fst snd] in He. injection He. intros; subst.
+        eapply Permutation.Permutation_in; [exact Hperm|exact Hi].
+      - intros Hi. exists ((d, c), v). split; [reflexivity|].
+        eapply Permutation.Permutation_in; [apply Permutation.Permutation_sym; exact Hperm|exact Hi]. }
     rewrite Hin, H. destruct (r2_closing (d, c) rows) as [v'|].
     + split; [intros ->; reflexivity|intros E; injection E; auto].
     + split; [intros []|discriminate].
